@@ -23,14 +23,18 @@ type vfStreamMut struct {
 }
 
 type vfCaseC07 struct {
-	Srv  vfSrvCfg
-	Sync []vfReq // sent one by one (always well-formed)
-	Tail []vfReq // rendered, mutated and sent in one piece, followed by EOF
-	Mut  vfStreamMut
+	// request ids start at 100+IDDelta (mod 2^32): small ids coincide with the numbers a server gives the
+	// requests internally, a coincidence nothing may hinge on (seed C07-g)
+	IDDelta uint32 `json:",omitempty"`
+	Srv     vfSrvCfg
+	Sync    []vfReq // sent one by one (always well-formed)
+	Tail    []vfReq // rendered, mutated and sent in one piece, followed by EOF
+	Mut     vfStreamMut
 }
 
 func vfGenC07Session(t *rapid.T) vfCaseC07 {
 	c := vfCaseC07{Srv: vfGenSrvCfg(t)}
+	c.IDDelta = rapid.SampledFrom([]uint32{0, 0, 1<<32 - 100, 1<<32 - 99, 1<<32 - 98, 1<<32 - 96, 1<<32 - 93, 1<<32 - 101}).Draw(t, "iddelta")
 	vfMaybeReadOnly(t, &c.Srv)
 	c.Srv.CloseKeepsRead = rapid.Bool().Draw(t, "closekeepsread")
 	c.Srv.HOpts.OpenFile = false
@@ -247,7 +251,7 @@ type vfC07Result struct {
 func vfC07Run(ctx *vfCtx, c *vfCaseC07, tail func(frames [][]byte, lens [][]int) []byte, waitReplies int, key string) *vfC07Result {
 	baseline := vfPkgGoroutineIDs()
 	kind := c.Srv.Kind
-	ps := vfStartProg(ctx, c.Srv, 100, 1)
+	ps := vfStartProg(ctx, c.Srv, 100+c.IDDelta, 1)
 	defer ps.cleanup()
 	res := &vfC07Result{root: ps.root}
 	if ps.root != "" {
